@@ -706,3 +706,104 @@ def c12_environ_search(meta, seed, budget):
             n += 1
             if n >= budget:
                 return
+
+
+# ---------------------------------------------------------------------------
+# C01 / C02: PID-reuse histories on a fake procfs; effectful primitives intercepted
+# ---------------------------------------------------------------------------
+
+def _stat_with_start(pid, start, state=b"S", comm=b"proc"):
+    import random
+    F = stat_fields(random.Random(pid))
+    F[0] = state
+    F[1] = b"1"
+    F[19] = str(start).encode()
+    return build_stat(pid, comm, F)
+
+
+def _call_effectful(p, contract_name):
+    meth = contract_name.split(".")[-1]
+    import signal
+    if meth in ("_send_signal", "send_signal"):
+        return getattr(p, meth)(signal.SIGUSR1)
+    if meth in ("suspend", "resume", "terminate", "kill"):
+        return getattr(p, meth)()
+    if meth == "nice":
+        return p.nice(5)
+    if meth == "ionice":
+        return p.ionice(2, 4)
+    if meth == "rlimit":
+        return p.rlimit(7, (100, 100))
+    if meth == "cpu_affinity":
+        return p.cpu_affinity([0])
+    return getattr(p, meth)()
+
+
+@runner("c01:history")
+def c01_history(model, meta):
+    """three canonical histories; a delivered signal/setting after the PID changed hands is the violation"""
+    import psutil
+    from psutil import _pslinux
+    pid = 4700
+    results = {}
+    delivered_any = False
+    for hist in ("gone-observed-then-recycled", "recycled-by-readable-process", "recycled-by-unidentifiable-owner"):
+        calls = []
+
+        def rec(name):
+            def f(*a, **k):
+                calls.append((name,) + a)
+            return f
+
+        with fake_procfs({f"{pid}/stat": _stat_with_start(pid, 1000)}) as d:
+            _pslinux.BOOT_TIME = None
+            p = psutil.Process(pid)
+            statp = os.path.join(d, str(pid), "stat")
+            patches = [mock.patch.object(os, "kill", rec("os.kill")),
+                       mock.patch.object(_pslinux.cext_posix, "setpriority", rec("setpriority")),
+                       mock.patch.object(_pslinux.cext, "proc_ioprio_set", rec("ioprio_set")),
+                       mock.patch.object(_pslinux.cext, "proc_cpu_affinity_set", rec("affinity_set")),
+                       mock.patch.object(_pslinux.resource, "prlimit", rec("prlimit"))]
+            extra = None
+            if hist == "gone-observed-then-recycled":
+                shutil.rmtree(os.path.join(d, str(pid)))
+                p.is_running()
+                os.makedirs(os.path.join(d, str(pid)))
+                with open(statp, "wb") as f:
+                    f.write(_stat_with_start(pid, 999999))
+            elif hist == "recycled-by-readable-process":
+                with open(statp, "wb") as f:
+                    f.write(_stat_with_start(pid, 999999))
+            else:
+                with open(statp, "wb") as f:
+                    f.write(_stat_with_start(pid, 999999, state=b"Z"))
+                orig_ct = _pslinux.Process.create_time
+
+                def ct(self, *a, **k):
+                    raise psutil.ZombieProcess(self.pid)
+                extra = mock.patch.object(_pslinux.Process, "create_time", ct)
+            for pt in patches:
+                pt.start()
+            if extra:
+                extra.start()
+            try:
+                try:
+                    _call_effectful(p, meta["contract"])
+                    outcome = "returned"
+                except Exception as e:  # noqa: BLE001
+                    outcome = type(e).__name__
+            finally:
+                for pt in patches:
+                    pt.stop()
+                if extra:
+                    extra.stop()
+            _pslinux.BOOT_TIME = None
+        results[hist] = {"outcome": outcome, "delivered": [repr(c) for c in calls]}
+        if calls:
+            delivered_any = True
+    return {"env": {}, "result": results, "exc": None, "verdict": delivered_any}
+
+
+@search("c01:history")
+def c01_history_search(meta, seed, budget):
+    yield {}
